@@ -1,6 +1,7 @@
 package engine
 
 import (
+	"bytes"
 	"fmt"
 	"sort"
 	"testing"
@@ -166,6 +167,17 @@ func c15Offsets(r *Rng, content []byte, tier string) (block []int, other []int) 
 	for _, b := range pf.Blocks {
 		addTo(&block, b.Start)
 		addTo(&block, b.End)
+	}
+	// inside the first (hash) line: in the marker, right after it, inside the value, just before its newline
+	if nl := bytes.IndexByte(content, '\n'); nl > 8 {
+		for _, o := range []int{3, 6, nl / 2, nl - 1, nl} {
+			addTo(&other, o)
+		}
+	}
+	// inside a BEGIN line and inside an END line
+	if len(pf.Blocks) > 0 {
+		addTo(&other, pf.Blocks[0].Start+9)
+		addTo(&other, pf.Blocks[len(pf.Blocks)-1].End-7)
 	}
 	var lines []int
 	for i, c := range content {
